@@ -285,6 +285,18 @@ impl Graph {
     pub fn config_text(&self) -> String {
         config_text_with(self.luau_mode, &self.generator, self.default_rules, &self.excludes, &self.aliases)
     }
+    /// number of require literals that are written in several files and reach DIFFERENT files
+    /// (compared after lexical normalisation, `./x` = `././x` = `./d/../x`)
+    pub fn same_literal_different_file(&self) -> usize {
+        let mut by_literal: BTreeMap<String, BTreeSet<&str>> = BTreeMap::new();
+        for tr in &self.truth {
+            if let Some(to) = &tr.to {
+                let head = if tr.req.starts_with("../") || tr.req.starts_with("./") { "./" } else { "" };
+                by_literal.entry(format!("{}{}", head, resolver::normalize(&tr.req))).or_default().insert(to.as_str());
+            }
+        }
+        by_literal.values().filter(|f| f.len() >= 2).count()
+    }
     /// number of files required from >= 2 textual sites
     pub fn shared_targets(&self) -> usize {
         let mut n: BTreeMap<&str, usize> = BTreeMap::new();
@@ -354,6 +366,8 @@ struct Exposed {
     field: String,
     target: usize,
     via: Via,
+    /// always followed by the entry's observations (a same-literal twin)
+    always: bool,
 }
 
 #[derive(Clone, Debug)]
@@ -369,9 +383,30 @@ struct Node {
     shadow_fields: Vec<(String, String)>,
     /// module-level `value`
     value: i64,
+    /// one of several same-named files in different directories
+    twin: bool,
+    /// requires this file must write with exactly this literal: (target node, literal)
+    forced: Vec<(usize, String)>,
 }
 
 impl Node {
+    /// a name that says which FILE this is (stems repeat across directories)
+    fn ident(&self) -> String {
+        if self.twin {
+            format!("{}@{}", self.name, resolver::dir_of(&self.path))
+        } else {
+            self.name.clone()
+        }
+    }
+    /// the path without extension a require names: `dir/name` for `dir/name.lua` and for
+    /// `dir/name/init.lua`
+    fn requirable(&self) -> String {
+        if self.is_init {
+            resolver::dir_of(&self.path)
+        } else {
+            strip_ext(&self.path).to_string()
+        }
+    }
     fn is_data(&self) -> bool {
         matches!(self.kind, Kind::Data(_) | Kind::Txt(_))
     }
@@ -390,6 +425,8 @@ struct Ctx<'a, 'b> {
     avoided: BTreeSet<&'static str>,
     dirs: Vec<String>,
     aliases: BTreeMap<String, String>,
+    /// same-literal twins the entry requires: (target node, literal)
+    entry_forced: Vec<(usize, String)>,
 }
 
 // ------------------------------------------------------------------------------------ spelling
@@ -516,7 +553,24 @@ impl<'a, 'b> Ctx<'a, 'b> {
 
     /// the text of a require call of `target` written in file `from`
     fn require_call(&mut self, from: &str, target: usize) -> String {
-        let s = self.spell(from, target);
+        self.require_call_as(from, target, None)
+    }
+
+    /// the directory a relative require written in `from` starts at
+    fn base_of(&self, from: &str) -> String {
+        let from_dir = resolver::dir_of(from);
+        if self.luau && stem_of(from) == "init" {
+            resolver::dir_of(&from_dir)
+        } else {
+            from_dir
+        }
+    }
+
+    fn require_call_as(&mut self, from: &str, target: usize, fixed: Option<&str>) -> String {
+        let s = match fixed {
+            Some(l) => l.to_string(),
+            None => self.spell(from, target),
+        };
         self.record(from, &s, Some(target));
         self.call_text(&s)
     }
@@ -668,7 +722,12 @@ impl Pos {
 /// writes the use; returns the expression holding the module value afterwards (if any)
 #[allow(clippy::too_many_arguments)]
 fn write_use(c: &mut Ctx, w: &mut Writer, from: &str, target: usize, var: &str, pos: Pos, sfx: &str, at_require_time: bool) -> Option<String> {
-    let call = c.require_call(from, target);
+    write_use_as(c, w, from, target, var, pos, sfx, at_require_time, None)
+}
+
+#[allow(clippy::too_many_arguments)]
+fn write_use_as(c: &mut Ctx, w: &mut Writer, from: &str, target: usize, var: &str, pos: Pos, sfx: &str, at_require_time: bool, fixed: Option<&str>) -> Option<String> {
+    let call = c.require_call_as(from, target, fixed);
     c.feat(pos.label());
     let tnode = c.nodes[target].clone();
     match pos {
@@ -832,6 +891,13 @@ fn write_use(c: &mut Ctx, w: &mut Writer, from: &str, target: usize, var: &str, 
     }
 }
 
+/// a position after which the module value is still at hand
+fn pick_value_pos(c: &mut Ctx) -> Pos {
+    let options = [Pos::Local, Pos::Paren, Pos::TableField, Pos::Arg, Pos::Multi, Pos::Assign, Pos::If, Pos::Loop, Pos::FnCalled, Pos::And, Pos::IfExpr, Pos::Cast, Pos::Inner];
+    let weights = [10, 2, 3, 3, 2, 2, 2, 2, 3, 1, 1, 2, 1];
+    options[c.t.weighted(&weights)]
+}
+
 fn pick_pos(c: &mut Ctx, target: usize, at_require_time: bool) -> Pos {
     let kind = c.nodes[target].kind.clone();
     let mut options: Vec<(Pos, u32)> = vec![
@@ -987,7 +1053,7 @@ fn write_module(c: &mut Ctx, idx: usize) -> String {
     let is_func = matches!(node.kind, Kind::Func { .. });
     if is_table {
         w.line(c.t, "local M = {}");
-        w.line(c.t, format!("M.name = \"{}\"", node.name));
+        w.line(c.t, format!("M.name = \"{}\"", node.ident()));
         w.line(c.t, "M.token = {}");
     }
     if is_func {
@@ -1024,18 +1090,35 @@ fn write_module(c: &mut Ctx, idx: usize) -> String {
                 w.line(c.t, format!("return {}", call));
                 w.indent -= 1;
                 w.line(c.t, "end");
-                exposed.push(Exposed { field: format!("lazy{}", sfx), target: j, via: Via::Lazy });
+                exposed.push(Exposed { field: format!("lazy{}", sfx), target: j, via: Via::Lazy, always: false });
                 continue;
             }
             let pos = pick_pos(c, j, true);
             if let Some(expr) = write_use(c, &mut w, &from, j, &var, pos, &sfx, true) {
                 if is_table {
                     w.line(c.t, format!("M.{} = {}", var, expr));
-                    exposed.push(Exposed { field: var.clone(), target: j, via: Via::Field });
+                    exposed.push(Exposed { field: var.clone(), target: j, via: Via::Field, always: false });
                 } else if is_func {
                     func_fields.push((var.clone(), expr));
-                    exposed.push(Exposed { field: var.clone(), target: j, via: Via::Field });
+                    exposed.push(Exposed { field: var.clone(), target: j, via: Via::Field, always: false });
                 }
+            }
+        }
+    }
+    // same-literal twins: the literal is fixed, the value stays observable
+    for (j, literal) in node.forced.clone() {
+        nuse += 1;
+        let sfx = format!("{}x{}", j, nuse);
+        let var = format!("d{}", sfx);
+        let pos = pick_value_pos(c);
+        c.feat("twin:required by a module");
+        if let Some(expr) = write_use_as(c, &mut w, &from, j, &var, pos, &sfx, true, Some(&literal)) {
+            if is_table {
+                w.line(c.t, format!("M.{} = {}", var, expr));
+                exposed.push(Exposed { field: var.clone(), target: j, via: Via::Field, always: true });
+            } else if is_func {
+                func_fields.push((var.clone(), expr));
+                exposed.push(Exposed { field: var.clone(), target: j, via: Via::Field, always: true });
             }
         }
     }
@@ -1057,7 +1140,7 @@ fn write_module(c: &mut Ctx, idx: usize) -> String {
             w.line(c.t, "function M:describe() return self.name .. \":\" .. tostring(value) end");
             if c.t.bool(100) {
                 has_run = true;
-                w.line(c.t, format!("function M.run(x) emit(\"{}.run\", x, value) return x end", node.name));
+                w.line(c.t, format!("function M.run(x) emit(\"{}.run\", x, value) return x end", node.ident()));
             }
             if !c.excludes.is_empty() && c.t.bool(50) {
                 let ext = excluded_string(c);
@@ -1082,7 +1165,7 @@ fn write_module(c: &mut Ctx, idx: usize) -> String {
             w.indent += 1;
             w.line(c.t, "calls = calls + 1");
             if *emits {
-                w.line(c.t, format!("emit(\"{} called\", x, calls)", node.name));
+                w.line(c.t, format!("emit(\"{} called\", x, calls)", node.ident()));
             }
             let mut fields = vec!["x = helper(x)".to_string(), "calls = calls".to_string(), "value = value".to_string()];
             for (f, e) in &func_fields {
@@ -1099,7 +1182,7 @@ fn write_module(c: &mut Ctx, idx: usize) -> String {
                 w.line(c.t, format!("return {}", node.value + 1));
             }
         }
-        Kind::Str => w.line(c.t, format!("return \"{}:\" .. tostring(value)", node.name)),
+        Kind::Str => w.line(c.t, format!("return \"{}:\" .. tostring(value)", node.ident())),
         Kind::True => w.line(c.t, "return true"),
         Kind::Counter | Kind::Data(_) | Kind::Txt(_) => unreachable!(),
     }
@@ -1162,15 +1245,15 @@ fn data_probes(c: &mut Ctx, w: &mut Writer, expr: &str, v: &DVal, depth: usize) 
 }
 
 fn observe(c: &mut Ctx, w: &mut Writer, st: &mut EntryState, expr: &str, idx: usize, depth: usize) {
-    if st.budget == 0 {
+    let node = c.nodes[idx].clone();
+    if st.budget == 0 && !node.twin {
         return;
     }
-    st.budget -= 1;
-    let node = c.nodes[idx].clone();
+    st.budget = st.budget.saturating_sub(1);
     st.seen.entry(idx).or_default().push(expr.to_string());
     let exposures = |c: &mut Ctx, w: &mut Writer, st: &mut EntryState, holder: &str| {
         for ex in &node.exposed {
-            if !c.t.bool(200) {
+            if !ex.always && !c.t.bool(200) {
                 continue;
             }
             let sub = match ex.via {
@@ -1323,10 +1406,29 @@ fn write_entry(c: &mut Ctx, entry: &str) -> (String, bool) {
     while ext_done < n_ext {
         write_excluded(c, &mut w, entry, &mut ext_done);
     }
-    // observations
+    // same-literal twins required by the entry itself
+    let forced = c.entry_forced.clone();
+    for (k, (j, literal)) in forced.iter().enumerate() {
+        let sfx = format!("{}t{}", j, k);
+        let var = format!("r{}", sfx);
+        let pos = pick_value_pos(c);
+        c.feat("twin:required by the entry");
+        if let Some(expr) = write_use_as(c, &mut w, entry, *j, &var, pos, &sfx, false, Some(literal)) {
+            st.vars.entry(*j).or_default().push(expr);
+        }
+    }
+    // observations: first the values that show which of several same-named files was loaded
     let vars: Vec<(usize, String)> = st.vars.iter().map(|(i, v)| (*i, v[0].clone())).collect();
-    for (i, v) in vars {
-        observe(c, &mut w, &mut st, &v, i, 0);
+    let priority = |c: &Ctx, i: usize| c.nodes[i].twin || !c.nodes[i].forced.is_empty();
+    for (i, v) in &vars {
+        if priority(c, *i) {
+            observe(c, &mut w, &mut st, v, *i, 0);
+        }
+    }
+    for (i, v) in &vars {
+        if !priority(c, *i) {
+            observe(c, &mut w, &mut st, v, *i, 0);
+        }
     }
     // every pair of expressions that must hold one and the same module value
     let seen = st.seen.clone();
@@ -1418,6 +1520,95 @@ pub fn gen_generator(t: &mut Tape) -> String {
     }
 }
 
+const TWIN_STEMS: [&str; 5] = ["config", "common", "shared", "helpers", "index"];
+
+/// Families of same-named files: a stem T and a relative literal R (`./T`, `../T`, `./sub/T`)
+/// written in files whose relative requires start at DIFFERENT directories, so that one literal
+/// means several files; each such file gets its own twin (plain file or T/init folder).  Two
+/// requirers starting at the same directory share their twin (same literal, same file).
+/// Returns the number of twin modules created.
+fn gen_twin_families(c: &mut Ctx, entry: &str, n_mod: usize) -> usize {
+    let n_fam = c.t.weighted(&[2, 5, 3]);
+    let mut created = 0;
+    let mut taken: BTreeSet<(String, String)> = c.nodes.iter().map(|n| (resolver::dir_of(&n.requirable()), resolver::file_name(&n.requirable()).to_string())).collect();
+    // requirers: None = the entry, Some(i) = a Lua module (regular ones, then earlier twins)
+    let mut requirers: Vec<Option<usize>> = vec![None];
+    requirers.extend((0..n_mod).map(Some));
+    let stem_start = c.t.choose(TWIN_STEMS.len());
+    for fam in 0..n_fam {
+        let stem = TWIN_STEMS[(stem_start + fam) % TWIN_STEMS.len()];
+        let shape = c.t.weighted(&[6, 2, 2]);
+        // group the requirers by the directory their relative requires start at
+        let mut by_base: BTreeMap<String, Vec<Option<usize>>> = BTreeMap::new();
+        for r in &requirers {
+            let path = match r {
+                None => entry.to_string(),
+                Some(i) => c.nodes[*i].path.clone(),
+            };
+            by_base.entry(c.base_of(&path)).or_default().push(*r);
+        }
+        let mut bases: Vec<String> = by_base.keys().cloned().collect();
+        // a rotation chosen by the tape, then the first 2-3 (4) directories
+        let k = c.t.choose(bases.len().max(1));
+        bases.rotate_left(k);
+        let want = 2 + c.t.weighted(&[5, 3, 1]);
+        let mut new_twins: Vec<usize> = vec![];
+        for base in bases.into_iter().take(want) {
+            // `../T` only where the parent is still inside src/
+            let (literal, target_stem_path) = match shape {
+                1 if resolver::components(&base).len() >= 2 => (format!("../{}", stem), format!("{}/{}", resolver::dir_of(&base), stem)),
+                2 => (format!("./sub/{}", stem), format!("{}/sub/{}", base, stem)),
+                _ => (format!("./{}", stem), format!("{}/{}", base, stem)),
+            };
+            let key = (resolver::dir_of(&target_stem_path), stem.to_string());
+            let existing = c.nodes.iter().position(|n| n.twin && n.requirable() == target_stem_path);
+            let twin = match existing {
+                Some(i) => i,
+                None => {
+                    if taken.contains(&key) {
+                        continue;
+                    }
+                    taken.insert(key);
+                    let ext = if c.t.bool(90) { "luau" } else { "lua" };
+                    let is_init = c.t.bool(50);
+                    let path = if is_init { format!("{}/init.{}", target_stem_path, ext) } else { format!("{}.{}", target_stem_path, ext) };
+                    let kind = match c.t.weighted(&[10, 3, 1, 2]) {
+                        0 => Kind::Table,
+                        1 => Kind::Func { emits: c.t.bool(128) },
+                        2 => Kind::Num,
+                        _ => Kind::Str,
+                    };
+                    created += 1;
+                    let value = 1000 + 10 * (c.nodes.len() as i64) + 3;
+                    c.nodes.push(Node { path, name: stem.to_string(), kind, typed: false, is_init, exposed: vec![], has_run: false, has_ext: None, shadow_fields: vec![], value, twin: true, forced: vec![] });
+                    new_twins.push(c.nodes.len() - 1);
+                    c.nodes.len() - 1
+                }
+            };
+            // one requirer of this directory always, the others sometimes
+            let group = by_base[&base].clone();
+            let first = c.t.choose(group.len());
+            for (gi, r) in group.iter().enumerate() {
+                if gi != first && !c.t.bool(60) {
+                    continue;
+                }
+                match r {
+                    None => c.entry_forced.push((twin, literal.clone())),
+                    // a module only requires files created after it (acyclic by construction)
+                    Some(i) if *i < twin => c.nodes[*i].forced.push((twin, literal.clone())),
+                    Some(_) => {}
+                }
+            }
+        }
+        // the twins of this family may be the requirers of the next one
+        requirers.extend(new_twins.into_iter().map(Some));
+    }
+    if created > 0 {
+        c.feat("twin:same stem in several directories");
+    }
+    created
+}
+
 pub fn gen_graph(t: &mut Tape, avoid: Avoid) -> Graph {
     let luau = t.bool(128);
     let generator = gen_generator(t);
@@ -1463,6 +1654,7 @@ pub fn gen_graph(t: &mut Tape, avoid: Avoid) -> Graph {
         avoided,
         dirs: vec!["src".to_string(), "src/lib".to_string(), "src/lib/deep".to_string(), "src/app".to_string()],
         aliases: aliases.clone(),
+        entry_forced: vec![],
     };
     // ---- Lua modules
     let n_mod = c.t.weighted(&[1, 2, 5, 6, 5, 4, 3]);
@@ -1487,13 +1679,13 @@ pub fn gen_graph(t: &mut Tape, avoid: Avoid) -> Graph {
             _ => Kind::True,
         };
         let typed = matches!(kind, Kind::Table) && c.t.bool(50);
-        c.nodes.push(Node { path, name, kind, typed, is_init, exposed: vec![], has_run: false, has_ext: None, shadow_fields: vec![], value: 10 * (i as i64 + 1) + 1 });
+        c.nodes.push(Node { path, name, kind, typed, is_init, exposed: vec![], has_run: false, has_ext: None, shadow_fields: vec![], value: 10 * (i as i64 + 1) + 1, twin: false, forced: vec![] });
     }
     // ---- the shared counter
     if n_mod > 0 && c.t.bool(215) {
         c.counter = Some(c.nodes.len());
         let dir = if c.t.bool(60) { "src/lib" } else { "src" };
-        c.nodes.push(Node { path: format!("{}/counter.lua", dir), name: "counter".into(), kind: Kind::Counter, typed: false, is_init: false, exposed: vec![], has_run: false, has_ext: None, shadow_fields: vec![], value: 0 });
+        c.nodes.push(Node { path: format!("{}/counter.lua", dir), name: "counter".into(), kind: Kind::Counter, typed: false, is_init: false, exposed: vec![], has_run: false, has_ext: None, shadow_fields: vec![], value: 0, twin: false, forced: vec![] });
     }
     // ---- data files
     let n_data = c.t.weighted(&[5, 4, 2, 1]);
@@ -1539,12 +1731,17 @@ pub fn gen_graph(t: &mut Tape, avoid: Avoid) -> Graph {
         let kind = if ext == "txt" { Kind::Txt(match &value { DVal::Str(s) => s.clone(), _ => String::new() }) } else { Kind::Data(value.clone()) };
         data.insert(path.clone(), value);
         data_texts.push((path.clone(), text));
-        c.nodes.push(Node { path, name: name.to_string(), kind, typed: false, is_init: false, exposed: vec![], has_run: false, has_ext: None, shadow_fields: vec![], value: 0 });
+        c.nodes.push(Node { path, name: name.to_string(), kind, typed: false, is_init: false, exposed: vec![], has_run: false, has_ext: None, shadow_fields: vec![], value: 0, twin: false, forced: vec![] });
     }
+    // ---- same-named files in different directories, required with one and the same literal
+    let n_twins = gen_twin_families(&mut c, &entry, n_mod);
     // ---- texts (modules from the leaves up so that exposures are known; the order of the
     //      tape reads is fixed: highest index first)
     let mut files: BTreeMap<String, String> = BTreeMap::new();
-    for i in (0..n_mod).rev() {
+    for i in (0..c.nodes.len()).rev() {
+        if matches!(c.nodes[i].kind, Kind::Counter | Kind::Data(_) | Kind::Txt(_)) {
+            continue;
+        }
         let text = write_module(&mut c, i);
         files.insert(c.nodes[i].path.clone(), text);
     }
@@ -1570,7 +1767,7 @@ pub fn gen_graph(t: &mut Tape, avoid: Avoid) -> Graph {
         }
     }
     let mut features = c.features.clone();
-    features.insert(format!("modules:{}", n_mod));
+    features.insert(format!("modules:{}", n_mod + n_twins));
     Graph {
         files,
         entry,
@@ -1583,7 +1780,7 @@ pub fn gen_graph(t: &mut Tape, avoid: Avoid) -> Graph {
         truth: c.truth,
         data,
         features,
-        lua_modules: n_mod,
+        lua_modules: n_mod + n_twins,
         observes_state,
         ambiguous,
         avoided: c.avoided,
